@@ -8,7 +8,7 @@ typedef struct S_struct_gdstk__RobustPathElement Elem;
 #define RR 2
 static OI iabs(OI a) { return a < 0 ? -a : a; }
 int main(void) {
-  Path p; memset(&p, 0, sizeof p);
+  Path p = {0};
   OI t[6], ws = (OI)nd_range(1, 3), os = (OI)nd_range(-3, 3), e0 = (OI)nd_range(0, 3), e1 = (OI)nd_range(0, 3);
   for (int i = 0; i < 6; i++) { t[i] = (OI)nd_range(-RR, RR); p.f8.a[i] = NUM_OF_INT(t[i]); }
   p.f6 = NUM_OF_INT(ws); p.f7 = NUM_OF_INT(os); p.f10 = SCALEW;
